@@ -23,7 +23,7 @@ func init() {
 			"R19-eofdata — the buffered read helpers report end-of-file only when they collected no bytes; R19-modes — ioOpenFile's mode switch equals the ISO C fopen table (flags per mode from the os package's constants for the analysed GOOS; 'r' not writable, 'w' not readable). " +
 			"R19-buffers — flush gives the read-ahead back (so that a write after read+flush lands at the cursor), seek and setvbuf write buffered output out before they move the file or replace the buffer, lines are read by one helper that ends a line at the newline only and joins pieces longer than the buffer (bufio's ReadLine, which also strips a carriage return and splits long lines, is not called), io.output truncates like fopen(name, w), and a byte count handed to the reader is not negative. NOT decided: the byte-sequence model itself (what is read after which writes).",
 		Trusted: []string{"ISO C fopen mode table (C11 7.21.5.3) written out in the checker"},
-		Rules:   []func(*Ctx){ruleWriteOneSink, ruleAbandonAlwaysReplacesTheReader, ruleOptionLists, ruleReadFormatByOneCharacter, ruleClosed, ruleReconcile, ruleEofData, ruleModes, ruleIoBuffers, ruleWriterWraps, ruleClosedFirst, ruleStdStreams, ruleReadBounded},
+		Rules:   []func(*Ctx){ruleOnlyCloseCloses, ruleReadsAfterFlush, ruleWriteOneSink, ruleAbandonAlwaysReplacesTheReader, ruleOptionLists, ruleReadFormatByOneCharacter, ruleClosed, ruleReconcile, ruleEofData, ruleModes, ruleIoBuffers, ruleWriterWraps, ruleClosedFirst, ruleStdStreams, ruleReadBounded},
 	})
 }
 
